@@ -147,6 +147,21 @@ func casesC02(g *Gen) []*Case {
 			cs = append(cs, c)
 		}
 	}
+	// a condition is evaluated every time it is reached, also when it holds no variable: a custom function may
+	// answer differently each time
+	{
+		ops := []string{opReg("str", "cycle", 4),
+			opEvs(`@each(x in [1, 2, 3, 4])@if("row".cycle() == "odd")o@else e@end@end`, nil),
+			opEvs(`@for(i = 0; i < 4; i++)@if(false)n@elseif("r".cycle() == "even")E@else O@end@end`, nil),
+			opEvs(`@each(x in [1, 2, 3, 4, 5]){{ x }}@breakIf("r".cycle() == "even")@end`, nil),
+			opEvs(`@each(x in [1, 2, 3, 4]){{ "r".cycle() == "odd" ? "a" : "b" }}@continueIf("r".cycle() == "even")!@end`, nil),
+			opEvs(`@each(x in [1, 2, 3])@component("c")@end`, nil)}
+		t := newTree()
+		c := histCase("condition_evaluated_each_time", t, ops, "Register(str cycle: odd, even, odd, …); conditions without variables inside loops")
+		c.NoModel = true
+		c.Oracle = expectResults(map[int]func(string) string{1: wantOK("o eo e"), 2: wantOK(" OE OE"), 3: wantOK("12"), 4: wantOK("aaaa")})
+		cs = append(cs, c)
+	}
 	// long chains that test one variable against literals: still the first truthy branch
 	{
 		escLit := func(x string) string {
@@ -470,6 +485,20 @@ func casesC03(g *Gen) []*Case {
 		c.Oracle = expectOut(want)
 		cs = append(cs, c)
 	}
+	// a loop object remembered from an earlier pass keeps describing that pass; loops without a post statement, with @else
+	for src, want := range map[string]string{
+		"@each(e in [7, 8, 9])@if(loop.index > 0)[{{ prev.index }}{{ prev.last }}{{ pi }}]@end{{ prev = loop }}{{ pi = loop.iter }}@end": "[001][102]",
+		"@each(e in [7, 8, 9]){{ first = loop.first ? loop : first }}{{ first.index }}{{ first.iter }};@end":                                "01;01;01;",
+		"@each(e in [7, 8]){{ seen = loop }}@each(f in [1, 2, 3])@end{{ seen.iter }}{{ loop.iter }};@end":                                  "11;22;",
+		"@each(e in [7, 8, 9]){{ all = loop.first ? [loop] : all.append(loop) }}@if(loop.last)@each(l in all){{ l.index }}{{ l.last }} @end@end@end": "00 10 21 ",
+		"@for(i = 0; i < 3; ){{ i }}{{ i = i + 1 }}@else none@end|@for(i = 5; i < 3; )x@else none@end":                                       "012| none",
+		"@for(i = 0; i < 2; ){{ i }}{{ i = i + 1 }}@end|@for(i = 0; i < 1; ){{ i = i + 1 }}y@else n@end|@for(; false; )@else z@end":          "01|y| z",
+		"@for(i = 0; i < 3; i + 1){{ i }}@end|@for(i = 0; i < 6; i * 2 + 1){{ i }}@else e@end":                                              "012|013",
+	} {
+		c := evalCase("remembered_loop_objects_and_empty_posts", src, nil)
+		c.Oracle = expectOut(want)
+		cs = append(cs, c)
+	}
 	// loop metadata is visible in whatever a pass renders: component files, slot bodies, insert blocks of a layout loop
 	{
 		t := newTree()
@@ -650,6 +679,27 @@ func casesC04(g *Gen) []*Case {
 		"@each(v in [1])@for(; false;)@else{{ v = 5 }}@end{{ v }}@end":                   "1",
 	} {
 		c := evalCase("for_without_init_is_a_scope", src, nil)
+		if strings.HasPrefix(want, "ERR ") {
+			part := strings.TrimPrefix(want, "ERR ")
+			c.Oracle = func(c *Case, impl string) string { return wantErr(part)(impl) }
+		} else {
+			c.Oracle = expectOut(want)
+		}
+		cs = append(cs, c)
+	}
+	// the post clause of a @for is an assignment to the counter like any other: a value of another type is refused
+	for src, want := range map[string]string{
+		"@for(i = 0; i < 2; \"s\")x@end":                            "ERR cannot assign",
+		"@for(i = 0; i < 2; i.float())x@end":                        "ERR cannot assign",
+		"@for(i = 0; i < 2; [i])x@end":                              "ERR cannot assign",
+		"@for(i = 0; i < 3; i == 1 ? false : i + 1){{ i }}@end":      "ERR cannot assign",
+		"@for(i = 0; i < 2; i.str())x@end":                          "ERR cannot assign",
+		"@for(i = 0.5; i < 2.0; i.int())x@end":                      "ERR cannot assign",
+		"@for(s = \"a\"; s.len() < 3; s + \"b\"){{ s }};@end{{ 1 }}": "a;ab;1",
+		"@for(i = 0; i < 2; i + 1)@for(j = 0; j < 2; j.str())@end@end": "ERR cannot assign",
+		"@for(i = 0; i < 2; nil)x@breakIf(true)@end":                 "x",
+	} {
+		c := evalCase("for_post_keeps_the_type", src, nil)
 		if strings.HasPrefix(want, "ERR ") {
 			part := strings.TrimPrefix(want, "ERR ")
 			c.Oracle = func(c *Case, impl string) string { return wantErr(part)(impl) }
